@@ -18,6 +18,7 @@ use muxide::api::{AacProfile, AudioCodec, Metadata, Muxer, MuxerBuilder, MuxerEr
 use muxide::codec::vp9::Vp9Config;
 use muxide::fragmented::{FragmentConfig, FragmentedMuxer};
 
+mod cli;
 mod purefn;
 
 pub fn unhex(s: &str) -> Vec<u8> {
@@ -359,6 +360,7 @@ fn parse_pcfg(tokens: &[&str]) -> PCfg {
             "sinkty" => c.sinkty = v.to_string(),
             "novideo" => c.novideo = v == "1",
             "twin" => c.twin = v.to_string(),
+            "grp" => {}
             _ => panic!("cfg key {}", k),
         }
     }
@@ -690,6 +692,7 @@ fn run_case(line: &str) -> String {
     let body = match kind {
         "P" => run_p(rest),
         "F" => run_f(rest),
+        "L" => cli::run_l(rest),
         "X" => match catch_unwind(AssertUnwindSafe(|| purefn::run_x(rest))) {
             Ok(s) => s,
             Err(_) => "panic".to_string(),
